@@ -91,7 +91,7 @@ pub fn check_one<V: Fv>(ty: Ty, class: &str, b: &[u8], rep: &mut Report) {
 }
 
 fn run_v<V: Fv>(ctx: &Ctx, rep: &mut Report) {
-    let (keys, _bad) = pool::keys::<V>(ctx.seed, "c06", ctx.sz(2, 12));
+    let (keys, _bad) = pool::keys::<V>(ctx.seed, "c06", ctx.sz(2, 40));
     if let Some(k0) = keys.first() {
         if !crate::signer::canary::<V>(&k0.sk) {
             rep.inconclusive("sign does not terminate or panics on a fresh key (reported by C01); this leg needs working signatures".into());
@@ -106,8 +106,8 @@ fn run_v<V: Fv>(ctx: &Ctx, rep: &mut Report) {
             valids.push((Ty::Sig, V::sig_to_bytes(&sig)));
         }
     }
-    let synth = ctx.sz(9, 120);
-    let flips = ctx.sz(30, 200);
+    let synth = ctx.sz(9, 600);
+    let flips = ctx.sz(30, 400);
     let r = par_for(valids.len() + synth, ncpu(), |job, rep| {
         let mut rng = rng_for(ctx.seed, &format!("c06-{}-{}", V::NAME, job));
         let (ty, valid) = if job < valids.len() {
